@@ -1104,3 +1104,36 @@ Proof.
   exists mutp, r1_s0, r3_a, r3_b, r5_c.
   repeat split; vm_compute; reflexivity.
 Qed.
+
+(* shallow clocks, after a Sync(): RemoteSync did not update lastPushData, the
+   reply of the next (no-op) mutation is computed against the older belief;
+   the client's shallow checksum (number of tracked states + queue tick)
+   matches the server's (number of active states + queue tick) by
+   coincidence, the wrong diff is accepted: wrong parity, wrong queue tick,
+   the server believes the client is current, nothing repairs it *)
+Definition shpart : pcfg :=
+  {| p_codec := {| sync_schema := true; shallow := true; tracked := [1]%nat |};
+     p_mut := false; p_hello_m := true; p_sync_m := true |}.
+Definition sb_s0 := sn [1;0;0;0] 2 0.
+Definition sb_a := sn [1;1;0;0] 3 0.
+Definition sb_b := sn [1;1;0;0] 4 0.
+
+Theorem shallow_stale_belief_refuted_lemma :
+  exists (p : pcfg) (s0 a b : snap),
+    p_mut p = false /\ shallow (p_codec p) = true /\
+    cfg_wf (p_codec p) (length (s_time s0)) = true /\
+    chain_in_range s0 [a; b] = true /\ s_m s0 = 0 /\
+    let st1 := exec p (init p s0) [Src a; SyncReq; Settle] in
+    let st := exec p st1 [Src b; Reply; Write; Settle] in
+    mirror_ok (p_codec p) (s_time a) (cl_t (st_cl st1)) = true /\
+    quiescent st = true /\ st_err st = false /\
+    st_rejpush st = false /\ cl_need (st_cl st) = false /\ st_synced st = st_synced st1 /\
+    cl_q (st_cl st) <> s_q b /\
+    mirror_ok (p_codec p) (s_time b) (cl_t (st_cl st)) = false /\
+    forall n, exec p st (concat (repeat [Push; Settle] n)) = st.
+Proof.
+  exists shpart, sb_s0, sb_a, sb_b.
+  repeat split; try (vm_compute; reflexivity).
+  - vm_compute. discriminate.
+  - intros n. apply repeat_fix. vm_compute. reflexivity.
+Qed.
